@@ -174,6 +174,10 @@ func AnalyzeDistributed(
 		limit = defaultLimit
 	}
 	nodeTemplate.Limit = limit + nodeTemplate.GetOffset()
+	if nodeTemplate.Limit < limit {
+		// uint32 overflow: the nodes must not be asked for fewer rows than the client wants
+		nodeTemplate.Limit = math.MaxUint32
+	}
 	nodeTemplate.Offset = 0
 	// hadTop is captured before clearing Top so the data-node Limit can
 	// be unbounded when the original query is Top-over-Agg. Without this,
